@@ -65,7 +65,7 @@ func init() {
 	vrt.Register(&vrt.Prop{
 		ID: "C19", Level: "exploration",
 		Rule: "case = a real loopback mesh of 2-6 parties x 1-4 connections per pair: leader Create first, then Join in a PRNG order with PRNG delays, all Connect calls concurrent with PRNG start delays; a verif hook at five points of p2p/network.go (before Accept, after the accepted hello, between need--/Broadcast and addPeer, before Dial, after the dial hello) logs the event order and injects 0-5 ms PRNG delays. " +
-			"Oracle: after all Connect calls returned nil every party lists every other party exactly once with exactly numConns non-nil connections, and a unique token sent on i.Peers[j].Conns[k] arrives on j.Peers[i].Conns[k] and nowhere else, in both directions (exactly once, no loss, no cross-wiring). A Connect error is a violation; a quiescent deadlock (all Connect goroutines parked, no hook event for 6 s, confirmed by two goroutine dumps) is a violation, any other timeout inconclusive. Distinct = hash of the observed hook-event order.",
+			"Oracle: at the moment a party's own Connect returns nil, and again after all Connect calls returned, every party lists every other party exactly once with exactly numConns non-nil connections, and a unique token sent on i.Peers[j].Conns[k] arrives on j.Peers[i].Conns[k] and nowhere else, in both directions (exactly once, no loss, no cross-wiring). A Connect error is a violation; a quiescent deadlock (all Connect goroutines parked, no hook event for 6 s, confirmed by two goroutine dumps) is a violation, any other timeout inconclusive. Distinct = hash of the observed hook-event order.",
 		Assumptions: []string{"loopback TCP; the kernel's behaviour can be varied only in timing", "the leader's Create precedes every Join, as Join requires"},
 		NumCases: func(t string) int {
 			if t == "thorough" {
@@ -77,6 +77,24 @@ func init() {
 		CaseTimeout: 4 * time.Minute,
 		Run:         runC19,
 	})
+}
+
+// c19Snapshot renders "peer:established connections" of every other party.
+func c19Snapshot(nw *p2p.Network, self int) string {
+	var parts []string
+	for _, p := range nw.Peers {
+		if p.ID == self {
+			continue
+		}
+		n := 0
+		for _, c := range p.Conns {
+			if c != nil {
+				n++
+			}
+		}
+		parts = append(parts, fmt.Sprintf("%d:%d", p.ID, n))
+	}
+	return strings.Join(parts, " ")
 }
 
 func runC19(cs *vrt.Case) {
@@ -149,6 +167,7 @@ func runC19(cs *vrt.Case) {
 		}
 	}
 	errs := make([]error, P)
+	snaps := make([]string, P)
 	done := make(chan int, P)
 	delays := make([]time.Duration, P)
 	for i := range delays {
@@ -158,6 +177,11 @@ func runC19(cs *vrt.Case) {
 		go func(i int) {
 			time.Sleep(delays[i])
 			errs[i] = nets[i].Connect()
+			if errs[i] == nil {
+				// what this party can see at the moment its own Connect
+				// returns (the application starts using the mesh now)
+				snaps[i] = c19Snapshot(nets[i], i)
+			}
 			done <- i
 		}(i)
 	}
@@ -212,7 +236,30 @@ func runC19(cs *vrt.Case) {
 			return
 		}
 	}
-	// structure
+	// structure at the moment each Connect returned
+	wantSnap := func(i int) string {
+		var parts []string
+		for j := 0; j < P; j++ {
+			if j != i {
+				parts = append(parts, fmt.Sprintf("%d:%d", j, K))
+			}
+		}
+		return strings.Join(parts, " ")
+	}
+	for i := range nets {
+		if snaps[i] != wantSnap(i) {
+			evMu.Lock()
+			tail := append([]string(nil), events...)
+			evMu.Unlock()
+			if len(tail) > 40 {
+				tail = tail[len(tail)-40:]
+			}
+			cs.Violate("C19|incomplete-on-return", fmt.Sprintf("when Connect of party %d returned, its peer table (peer:connections) was [%s], a complete mesh is [%s]", i, snaps[i], wantSnap(i)),
+				map[string]any{"case": desc, "join_order": order, "last_events": tail})
+			return
+		}
+	}
+	// structure after every Connect returned
 	for i, nw := range nets {
 		seen := map[int]bool{}
 		for _, p := range nw.Peers {
